@@ -37,6 +37,12 @@ RULES = {
              '(C12.d), inserts every record it reads unconditionally (C12.h), so a later record replaces an earlier one of the same key, and leaves the per-file search only after the forward scan (C12.k)',
     'C05.k': 'the node names itself with one Databases field in every node-to-node message (C15.g): the catch-up request `replicate-since '
              '<name>` must carry the name the primary registered, or the primary finds no such member and sends nothing',
+    'C05.l': 'the catch-up replays a record as the operation it logs: in the builder, each arm of the switch over the record\'s '
+             'operation kind builds messages of ONE command word — the kind of message is never chosen by looking at the value '
+             '(a live key whose value is the text `<Empty>` would be replayed as a remove)',
+    'C05.m': 'the catch-up decodes a record\'s database id with the map the databases were registered in: every insert into '
+             'Databases.id_name_db_map is keyed by the database\'s own metadata id (what the oplog writer logs), not by a position or a count '
+             '— after a restart the two differ and a logged write is replayed into another database',
 }
 
 
@@ -79,6 +85,8 @@ def run(ck, m):
             n_ += 1
             ck.ob('C05.j', o['key'].split(':')[1], o['key'].split(':', 2)[2], o['verdict'] == 'discharged', o['what'], o['loc'], verdict=o['verdict'])
     ck.floor('C05.j', n_, 3, 'rules of the oplog query the catch-up depends on')
+    one_message_kind_per_operation(ck, m)
+    db_registered_under_its_id(ck, m)
     # the node asks for its catch-up under the name the primary registered it with (C15.g, same field for every self-naming message)
     from props import C15
     C15.self_name_agrees(ck, m, rule='C05.k')
@@ -372,3 +380,79 @@ def _run(ck, m):
                           'the helper called for each command clones the sender before it sends' if fresh else
                           'the helper %s called for each command of the batch sends on the handle it was given' % short(cb_.id), ub.loc(bi))
     ck.floor('C05.i', ni, 1, 'sends to a member inside a loop of the supervisor')
+
+
+
+def one_message_kind_per_operation(ck, m):
+    """C05.l — see RULES"""
+    from nl import wire
+    P = m.prog
+    entry, bs = builders(m)
+    n = 0
+    for b in bs:
+        for bi in b.reachable():
+            ts = b.term(bi)
+            if ts['k'] != 'switch':
+                continue
+            pl = ts['o'].get('c') or ts['o'].get('m')
+            adt = None
+            for (dbi, dsi, kind, rv) in (b.defs().get(pl['l'], []) if pl else []):
+                if kind == 'assign' and rv['k'] == 'discr' and rv.get('adt', '').endswith('ReplicateOpp'):
+                    adt = rv['adt']
+            if adt is None:
+                continue
+            a = P.adts.get(adt) or {}
+            targets = {str(v): tb for v, tb in ts['targets']}
+            for v in a.get('variants', []):
+                tgt = targets.get(str(v['discr']), ts['else'])
+                others = [x for x in b.succ(bi) if x != tgt]
+                region = {x for x in b.reach_from([tgt], include_start=True) if b.dominates(tgt, x) and not any(b.dominates(o_, x) for o_ in others)}
+                words = {}
+                for fbi, f in core.string_builders(b):
+                    if fbi in region:
+                        w = wire.first_word(f)
+                        if w and not is_log(b.term(fbi)) and w in repl.schemas(m):
+                            words.setdefault(w, b.loc(fbi))
+                if not words:
+                    continue
+                n += 1
+                ck.ob('C05.l', short(b.id), 'operation:%s:one-message-kind' % v['name'], len(words) == 1,
+                      'a logged %s is replayed as %s' % (v['name'], sorted(words)) if len(words) == 1 else
+                      'a logged %s is replayed as one of %s, chosen inside the arm: the kind of the message depends on something other than the '
+                      'logged operation (the value read back) — a live key whose value equals the placeholder text is replayed as a remove and '
+                      'disappears from the rejoining node' % (v['name'], sorted(words.items())), sorted(words.values())[0])
+    ck.floor('C05.l', n, 3, 'operation arms of the catch-up builder that build a message')
+
+
+
+def db_registered_under_its_id(ck, m):
+    """C05.m — see RULES"""
+    P = m.prog
+    IM = 'std::collections::HashMap::<u64, std::string::String>::insert'
+    n = 0
+    for b in P.user_bodies():
+        if b.id.startswith(('nundb::client::', 'nundb::command_line::')):
+            continue
+        for bi, t in b.calls():
+            if not t['f'].get('dargs', '').startswith(IM) or len(t['args']) < 3:
+                continue
+            from nl.locks import lock_id_of
+            # only the id -> name map of the databases (the id -> key map has the same type)
+            ids_ = set()
+            for r in origins(b, t['args'][0]):
+                if r[0] == 'call' and callee_decl(b.term(r[1])) in ('std::sync::RwLock::write', 'std::sync::Mutex::lock', 'std::sync::RwLock::read') \
+                        and b.term(r[1])['args']:
+                    ids_ |= set(lock_id_of(b, b.term(r[1])['args'][0]))
+            if 'Databases.id_name_db_map' not in ids_:
+                continue
+            n += 1
+            roots = origins(b, t['args'][1], stop_at_calls=True)
+            from_id = any(any(q and q[0] == 'f' and q[2] == 'id' for q in (r[-1] or ())) for r in origins(b, t['args'][1]))
+            from_len = any(r[0] == 'call' and callee_decl(b.term(r[1])).split('::')[-1] in ('len', 'count') for r in roots)
+            ok = from_id and not from_len
+            ck.ob('C05.m', short(b.id), 'database-registered-under-its-metadata-id', ok,
+                  'the id -> name map is keyed by the database\'s metadata id' if ok else
+                  'the id -> name map is keyed by %s, not by the database\'s metadata id: the oplog writer logs metadata.id; for databases loaded '
+                  'from disk (ids from the metadata files, positions from the directory order) the catch-up decodes a record of one database '
+                  'to the name of another and replays the write there' % ('a count / position' if from_len else 'something else'), b.loc(bi))
+    ck.floor('C05.m', n, 1, 'inserts into the id -> name map of the databases')
